@@ -41,13 +41,20 @@ def key_of(payload: bytes) -> dict:
 
 
 # ------------------------------------------------------------------ payloads
-def make_payload(rng: Any, size: int, op: int, tag: int, shape: str) -> bytes:
-    """Payload of exactly `size` bytes; unique per message through a tag (size >= 2)."""
+def make_payload(rng: Any, size: int, op: int, tag: int, shape: str, block: bytes = b"") -> bytes:
+    """Payload of exactly `size` bytes; unique per message through a tag (size >= 2).
+    shape "echo": rotations of a block shared by all messages of the execution, so the deflate
+    output of a message refers back into EARLIER messages (the shared context matters)."""
     head = bytes([0x30 + (tag // 16) % 16, 0x41 + tag % 16]) if op == G.OP_TEXT else bytes([tag & 0xFF, (tag * 7 + 1) & 0xFF])
     if size <= 1:
         return head[:size] if op != G.OP_TEXT else b"q"[:size]
     body_len = size - 2
-    if shape == "random" and op != G.OP_TEXT:
+    if shape == "echo" and block:
+        blk = block if op != G.OP_TEXT else bytes(0x20 + (b % 95) for b in block)
+        off = (tag * 131) % len(blk)
+        rot = blk[off:] + blk[:off]
+        body = (rot * (body_len // len(rot) + 1))[:body_len]
+    elif shape == "random" and op != G.OP_TEXT:
         body = bytes(rng.getrandbits(8) for _ in range(min(body_len, 4096)))
         body = (body * (body_len // max(1, len(body)) + 1))[:body_len] if body else b""
         if body_len > 4096:      # keep it incompressible enough: xor a counter in
@@ -81,19 +88,22 @@ BOUNDARY_SIZES = [0, 1, 125, 126, 127, 65535, 65536, 65537, SYNC_CHUNK - 1, SYNC
 
 # ------------------------------------------------------------------ one execution
 class ReaderSide:
-    """Protocol whose data_received feeds a real WebSocketReader (the receiving peer)."""
+    """Protocol whose data_received feeds a real WebSocketReader (the receiving peer).
+    consume=False: the application does not read while data arrives (slow consumer); result()
+    then drains the queue.  limit = the queue's flow-control limit (reading is paused above 2x)."""
 
-    def __init__(self, loop: steploop.StepLoop, compress: bool) -> None:
+    def __init__(self, loop: steploop.StepLoop, compress: bool, limit: int = 2 ** 22, consume: bool = True) -> None:
         from aiohttp._websocket.reader_py import WebSocketDataQueue, WebSocketReader
 
         self.loop = loop
         self._reading_paused = False
         self.transport: Any = None
-        self.queue = WebSocketDataQueue(self, 2 ** 22, loop=loop)  # type: ignore[arg-type]
+        self.queue = WebSocketDataQueue(self, limit, loop=loop)  # type: ignore[arg-type]
         self.reader = WebSocketReader(self.queue, 0, compress=compress, decode_text=True)
         self.got: List[Any] = []
         self.exc: Optional[BaseException] = None
-        self.consumer = loop.create_task(self._consume())
+        self.consume = consume
+        self.consumer = loop.create_task(self._consume()) if consume else None
 
     # what BaseProtocol offers to the queue
     def pause_reading(self) -> None:
@@ -127,6 +137,8 @@ class ReaderSide:
             self.got.append(msg)
 
     def result(self) -> Tuple[List[dict], int]:
+        if self.consumer is None:                 # the slow consumer gets to read only now
+            self.consumer = self.loop.create_task(self._consume())
         self.loop.run_until_idle()
         recv = []
         for m in self.got:
@@ -256,6 +268,15 @@ class SendExec:
                     pos += n
                 recv, rerr = rs.result()
                 runs.append({"seg": sname, "recv": recv, "rerr": rerr})
+        if extra_runs and wire:
+            # a consumer slower than the sender: the whole burst is in the queue before anything is read;
+            # once with the default flow-control limit (64 KiB), once with a tiny one so that every
+            # execution is above the high-water mark
+            for sname, lim in (("slow-consumer", 2 ** 16), ("slow-consumer-low-mark", 16)):
+                rs = ReaderSide(self.loop, compress=self.cfg["compress"] > 0, limit=lim, consume=False)
+                rs.data_received(wire)            # one read burst: a pause request cannot take effect inside it
+                recv, rerr = rs.result()
+                runs.append({"seg": sname, "recv": recv, "rerr": rerr})
         if extra_runs and wire and self.cfg["notakeover"] and len(wire) <= 120000:
             # the peer of a no_context_takeover sender may drop its inflate context after every
             # message: a reader whose inflater is discarded at each message boundary
@@ -332,6 +353,7 @@ def run_recipe(ctx: Ctx, loop: steploop.StepLoop, recipe: dict, src: str) -> dic
     """recipe = {cfg, seed, messages: [[sender, op, size, shape, ovr]], schedule: [[act, who]]}"""
     rng = _random.Random(recipe["seed"])
     x = SendExec(loop, recipe["cfg"], recipe["seed"])
+    block = bytes(rng.getrandbits(8) for _ in range(recipe.get("block", 3000)))
     for k, ent in enumerate(recipe["messages"]):
         sender, op, size, shape, ovr = ent[:5]
         if len(ent) > 5:                      # explicit payload (hex)
@@ -339,7 +361,7 @@ def run_recipe(ctx: Ctx, loop: steploop.StepLoop, recipe: dict, src: str) -> dic
         elif op == G.OP_CLOSE:
             payload = struct.pack("!H", 1000) + make_payload(rng, max(0, min(size, 123) - 2), G.OP_TEXT, k + 1, "utf8")
         else:
-            payload = make_payload(rng, size, op, k + 1, shape)
+            payload = make_payload(rng, size, op, k + 1, shape, block)
         x.add_message(sender, op, payload, ovr)
     for act, who in recipe["schedule"]:
         if act == "spawn":
@@ -372,6 +394,7 @@ CONSTANTS
   CloseLatch = {latch}
   UseShield = {shield}
   SmallTakesLock = {smalllock}
+  OvrTakesLock = {ovrlock}
 {invs}
 CHECK_DEADLOCK FALSE
 """
@@ -384,6 +407,8 @@ PROGS = {
              "c": [("data", "large", False)]},
     "ovr": {"a": [("data", "small", False), ("data", "small", True), ("data", "small", False)],
             "b": [("data", "large", True), ("data", "small", False)], "c": [("ping", "small", False)]},
+    "ovr2": {"a": [("data", "small", False), ("data", "large", False)], "b": [("data", "small", True), ("data", "small", False)],
+             "c": [("data", "small", False), ("data", "small", True)]},
     "close": {"a": [("data", "large", False), ("data", "small", False)], "b": [("close", "small", False), ("data", "small", False)],
               "c": [("data", "small", False), ("ping", "small", False)]},
     "pair": {"a": [("data", "large", False), ("data", "small", False)], "b": [("data", "small", False), ("data", "large", False)],
@@ -392,13 +417,13 @@ PROGS = {
 
 
 def write_cfg(prog: str, compress: bool, takeover: bool, maxcancel: int, fix: bool, shield: bool = True,
-              smalllock: bool = True, invs: Optional[List[str]] = None, latch: bool = False) -> str:
+              smalllock: bool = True, invs: Optional[List[str]] = None, latch: bool = False, ovrlock: bool = True) -> str:
     d = mktemp("c11cfg")
     p = os.path.join(d, f"WsSendMC_{prog}.cfg")
     B = lambda b: str(bool(b)).upper()  # noqa: E731
     with open(p, "w") as f:
         f.write(MODEL_CFG.format(prog=prog, compress=B(compress), takeover=B(takeover), maxcancel=maxcancel, fix=B(fix), latch=B(latch),
-                                 shield=B(shield), smalllock=B(smalllock),
+                                 shield=B(shield), smalllock=B(smalllock), ovrlock=B(ovrlock),
                                  invs="\n".join("INVARIANT " + i for i in (invs or ALL_INVS))))
     return p
 
@@ -412,6 +437,8 @@ def model_runs(ctx: Ctx, override_as_found: bool, close_as_found: bool) -> None:
     runs = [("mix3", True, True, mc, ALL_INVS), ("pair", True, False, mc, ALL_INVS),
             ("close", True, True, mc, strong if latch else ALL_INVS), ("mix3", False, True, 1, ALL_INVS),
             ("ovr", True, False, mc, ALL_INVS),
+            # a large shared-context send in flight while small sends with / without override arrive
+            ("ovr2", True, True, mc, ALL_INVS if fixo else [i for i in ALL_INVS if i != "DecodeOK"] + ["DecodeOnlyOverrideDev"]),
             # context takeover + per-message override: with the repaired design everything holds; with the code
             # as found every wrong decode must be explained by the override deviation alone
             ("ovr", True, True, mc, ALL_INVS if fixo else [i for i in ALL_INVS if i != "DecodeOK"] + ["DecodeOnlyOverrideDev"])]
@@ -446,10 +473,11 @@ def drive_model_behaviours(ctx: Ctx, loop: steploop.StepLoop) -> None:
     """spec -> code: TLC behaviours of WsSendMC (Spawn/Cancel/Step) imposed on the real writer."""
     b = Batcher(ctx, "tlc-sim")
     rng = ctx.rng
-    plans = [("mix3", 15, False, 2), ("pair", 12, True, 2), ("close", 15, False, 2), ("ovr", 15, False, 2), ("ovr", 11, True, 1)]
+    plans = [("mix3", 15, False, 2), ("pair", 12, True, 2), ("close", 15, False, 2), ("ovr", 15, False, 2), ("ovr", 11, True, 1),
+             ("ovr2", 15, False, 2), ("ovr2", 10, False, 1)]
     for prog, wbits, notakeover, mc in plans:
         cfgp = write_cfg(prog, True, not notakeover, mc, False, invs=["LockSafety"])
-        behs, _res = simulate_behaviours("WsSendMC", cfgp, num=ctx.pick(120, 1500), depth=ctx.pick(40, 60), seed=ctx.seed, timeout=300)
+        behs, _res = simulate_behaviours("WsSendMC", cfgp, num=ctx.pick(90, 1500), depth=ctx.pick(40, 60), seed=ctx.seed, timeout=300)
         for bi, beh in enumerate(behs):
             msgs = []
             tiny: set = set()
@@ -460,7 +488,7 @@ def drive_model_behaviours(ctx: Ctx, loop: steploop.StepLoop) -> None:
                     if size <= 1 and (opc, size) in tiny:
                         size = 2 + len(msgs)
                     tiny.add((opc, size))
-                    shape = rng.choice(["repeat", "repeat", "random", "utf8", "pattern"])
+                    shape = rng.choice(["echo", "echo", "repeat", "random", "utf8", "pattern"])
                     msgs.append([sender, opc, size, shape, (rng.randint(9, wbits) if ovr else 0)])
             sched = []
             for label, _st in beh[1:]:
@@ -485,7 +513,7 @@ def random_recipe(ctx: Ctx, rng: Any, k: int, big: bool) -> dict:
     msgs = []
     used_tiny: set = set()
     nbig = 0
-    allow_ovr = compress > 0 and rng.random() < 0.12
+    allow_ovr = compress > 0 and rng.random() < 0.3
     with_close = rng.random() < 0.2
     for s in names:
         for _ in range(rng.randint(1, 4)):
@@ -508,7 +536,7 @@ def random_recipe(ctx: Ctx, rng: Any, k: int, big: bool) -> dict:
                 if (op, size) in used_tiny:
                     size = 2 + len(msgs)
                 used_tiny.add((op, size))
-            shape = rng.choice(["repeat", "repeat", "random", "utf8", "pattern"])
+            shape = rng.choice(["echo", "echo", "repeat", "random", "utf8", "pattern"])
             ovr = rng.randint(9, compress) if (allow_ovr and op in (G.OP_TEXT, G.OP_BIN) and rng.random() < 0.4) else 0
             msgs.append([s, op, size, shape, ovr])
     if with_close:
@@ -536,7 +564,7 @@ def random_recipe(ctx: Ctx, rng: Any, k: int, big: bool) -> dict:
 def drive_random(ctx: Ctx, loop: steploop.StepLoop) -> None:
     b = Batcher(ctx, "random")
     rng = ctx.rng
-    n = ctx.pick(1000, 20000)
+    n = ctx.pick(800, 20000)
     for k in range(n):
         big = (not ctx.quick) and k % 60 == 0
         b.add(run_recipe(ctx, loop, random_recipe(ctx, rng, k, big), "random"))
@@ -564,6 +592,53 @@ def drive_matrix(ctx: Ctx, loop: steploop.StepLoop) -> None:
             recipe = {"cfg": {"mask": mask, "compress": wbits, "notakeover": nt}, "seed": 1000 + k, "messages": msgs,
                       "schedule": [["spawn", "a"], ["idle", ""]]}
             b.add(run_recipe(ctx, loop, recipe, "matrix"))
+    b.flush()
+
+
+def drive_contention(ctx: Ctx, loop: steploop.StepLoop) -> None:
+    """Small-scope enumeration on the real writer: after a first message has entered the shared
+    deflate context, sender a has a large message in flight (lock held, executor hop); sender b
+    arrives k loop steps later with a small message (with / without per-message override), c with
+    a ping; optionally a is cancelled j steps after b arrived.  All payloads are rotations of one
+    block, so every compressed message refers back into earlier ones."""
+    b = Batcher(ctx, "contention")
+    rng = ctx.rng
+    n = 0
+    for (wbits, notakeover) in ((15, False), (11, False), (13, True)):
+        for ovr in (0, 9, wbits):
+            for k in range(0, ctx.pick(5, 8)):
+                for cancel_at in (None, 0, 2):
+                    if ctx.quick and (n + (cancel_at or 0)) % 2 and wbits != 15:
+                        n += 1
+                        continue
+                    n += 1
+                    large = rng.choice([SYNC_CHUNK + 1, 18000, 30000])
+                    msgs = [["a", G.OP_BIN, rng.choice([2000, 6000]), "echo", 0], ["a", G.OP_BIN, large, "echo", 0],
+                            ["b", rng.choice([G.OP_TEXT, G.OP_BIN]), rng.choice([40, 300, 3000]), "echo" if n % 3 else "random", ovr],
+                            ["b", G.OP_BIN, 500, "echo", 0], ["c", G.OP_PING, 4, "pattern", 0], ["c", G.OP_BIN, 700, "echo", 0]]
+                    sched = [["spawn", "a"]] + [["step", ""]] * (2 + k) + [["spawn", "b"], ["spawn", "c"]]
+                    if cancel_at is not None:
+                        sched += [["step", ""]] * cancel_at + [["cancel", "a"]]
+                    sched += [["idle", ""]]
+                    recipe = {"cfg": {"mask": n % 2 == 0, "compress": wbits, "notakeover": notakeover}, "seed": 5000 + n,
+                              "messages": msgs, "schedule": sched, "block": 6000}
+                    b.add(run_recipe(ctx, loop, recipe, "contention"))
+    b.flush()
+
+
+def drive_backlog(ctx: Ctx, loop: steploop.StepLoop) -> None:
+    """More than 2 x 64 KiB of data messages followed by control and data frames: the slow-consumer
+    runs of these executions are above the default high-water mark of the reader's queue."""
+    b = Batcher(ctx, "backlog")
+    rng = ctx.rng
+    for n, (wbits, sizes) in enumerate([(0, [50000, 50000, 50000]), (0, [70000, 65536]), (15, [60000, 60000, 30000]),
+                                        (0, [40000] * 4)] + ctx.pick([], [(12, [65537, 65537, 20]), (0, [131073])])):
+        msgs = [["a", G.OP_BIN if i % 2 else G.OP_TEXT, sz, "random" if wbits else "pattern", 0] for i, sz in enumerate(sizes)]
+        msgs += [["a", G.OP_PING, 4, "pattern", 0], ["a", G.OP_TEXT, 14, "utf8", 0], ["a", G.OP_PONG, 6, "pattern", 0],
+                 ["a", G.OP_PING, 9, "pattern", 0], ["a", G.OP_BIN, 200, "echo", 0]]
+        recipe = {"cfg": {"mask": n % 2 == 1, "compress": wbits, "notakeover": False}, "seed": 7000 + n, "messages": msgs,
+                  "schedule": [["spawn", "a"], ["idle", ""]]}
+        b.add(run_recipe(ctx, loop, recipe, "backlog"))
     b.flush()
 
 
@@ -609,6 +684,9 @@ def run(ctx: Ctx) -> None:
         model_runs(ctx, ovr_found, close_found)
     drive_model_behaviours(ctx, loop)
     ctx.log(f"tlc-sim replays done: traces={ctx.traces}")
+    drive_contention(ctx, loop)
+    drive_backlog(ctx, loop)
+    ctx.log(f"contention + backlog done: traces={ctx.traces}")
     drive_matrix(ctx, loop)
     ctx.log(f"matrix done: traces={ctx.traces}")
     drive_random(ctx, loop)
@@ -647,8 +725,9 @@ def selftest(ctx: Ctx) -> int:
     vs, _ = validate_batch("WsSendTrace", "WsSendTrace.cfg", [slim(t) for t in batch])
     print([(v.ok, v.clause, v.pos) for v in vs])
     ok = vs[0].ok and all(not v.ok for v in vs[1:])
-    for name, kw in (("no-shield", {"shield": False}), ("small-frames-skip-lock", {"smalllock": False})):
-        res = run_tlc("WsSendMC", write_cfg("mix3", True, True, 2, True, latch=True, **kw), workers=16, timeout=300, deadlock=False)
+    for name, prog, kw in (("no-shield", "mix3", {"shield": False}), ("small-frames-skip-lock", "mix3", {"smalllock": False}),
+                           ("override-frames-skip-lock", "ovr2", {"ovrlock": False})):
+        res = run_tlc("WsSendMC", write_cfg(prog, True, True, 2, True, latch=True, **kw), workers=16, timeout=300, deadlock=False)
         print(f"mutant {name}: violated={res.violated}")
         ok = ok and res.violated is not None and res.kind == "invariant"
     loop.uninstall()
